@@ -66,10 +66,15 @@ class ResultData(Contract):
         return out if isinstance(out, Raised) else None
 
     def ensures(self, S, case, b, out):
+        harness.CURRENT["S"] = b.S
         if isinstance(out, Raised):
+            from contracts.pipeline import dof_precondition_violated
+
+            if dof_precondition_violated(b, out):
+                yield "outside_precondition_degrees_of_freedom_zero", True
+                return
             yield "no_exception", False
             return
-        harness.CURRENT["S"] = b.S
         ref = harness.Ref(b)
         cfg = b.cfg
         result = out.result
